@@ -140,7 +140,21 @@ class StopProfile(OpProfile):
                 self.stops = saved
         return super().operator_events(w)
 
+    def enabled(self, w):
+        evs = super().enabled(w)
+        if w.running and getattr(w.schd, 'is_restart_timeout_wait', False):
+            # a restarted, completed workflow waits for its restart timeout
+            evs.append(('jump', 'restart-timeout'))
+        return evs
+
     def apply(self, w, ev):
+        if ev[0] == 'jump' and len(ev) > 1:
+            from .harness import CLOCK
+            timer = w.schd.timers.get('restart timeout')
+            if timer is not None and timer.timeout is not None:
+                CLOCK.now = max(CLOCK.now, timer.timeout + 0.001)
+            w.resume()
+            return
         if ev[0] == 'restart':
             # a plain `cylc play`: nothing but the run database decides
             over = {k: None for k in START_ONLY_OPTIONS
@@ -399,8 +413,10 @@ class RestartGraphFaithful(GraphFaithful):
         st = s.get('stop_task')
         if st is not None and kind == 'stopped:AUTO':
             job = w.env.jobs.get((str(st[1]), st[0], 1))
-            if job is not None and job.state == 'succeeded':
+            if job is not None and not job.live:
                 # it stopped after the stop task: the rest need not have run
+                # (whether a stop task that *fails* may stop the workflow is
+                # C43's question, not asked here)
                 out = [v for v in out if v['signature'] not in (
                     'closure-instance-never-ran', 'premature-shutdown')]
         return out
